@@ -434,6 +434,9 @@ PLANS = [
     dict(name="binding_alone", blocks=[(["impl2"], "m"), (["impl3"], "n.o")]),
     dict(name="nested", blocks=[(["enum1", "struct2"], "a.b")], nested={"a.b": (["enum1"], "c")}),
     dict(name="depth3", blocks=[(["enum1", "struct2", "impl2", "struct3"], "a.b.c")]),
+    # hierarchical layouts: a module file next to a directory of the same name (a.fcp and a/...)
+    dict(name="tree", blocks=[(["enum1", "struct2"], "a")], nested={"a": (["enum1"], "a.c")}),
+    dict(name="file_and_directory_same_name", blocks=[(["enum1"], "a"), (["svc"], "a.b"), (["dev"], "a.b.c")]),
     dict(name="everything_but_last", blocks=[(["enum1", "struct2", "impl2", "struct3", "impl3", "svc", "dev"], "all")]),
 ]
 
